@@ -40,8 +40,6 @@ pub enum SerializableTerm {
     BoolConstant(bool),
     /// Builtin function call, by function name (e.g. `abs(X)`, `upper(S)`)
     FunctionCall(String, Vec<SerializableTerm>),
-    /// Vector literal (`[1.0, 2.0]`)
-    VectorLiteral(Vec<f64>),
 }
 
 /// Serializable arithmetic expression for JSON storage
@@ -146,15 +144,16 @@ impl SerializableTerm {
             Term::Arithmetic(expr) => {
                 SerializableTerm::Arithmetic(SerializableArithExpr::from_arith_expr(expr))
             }
-            // Booleans, function calls and vector literals are part of a rule's meaning:
+            // Booleans and function calls are part of a rule's meaning:
             // turning them into `_` silently changed what a persistent rule computes.
             Term::BoolConstant(b) => SerializableTerm::BoolConstant(*b),
             Term::FunctionCall(func, args) => SerializableTerm::FunctionCall(
                 func.as_str().to_string(),
                 args.iter().map(SerializableTerm::from_term).collect(),
             ),
-            Term::VectorLiteral(values) => SerializableTerm::VectorLiteral(values.clone()),
-            // Record syntax is desugared before rules are stored
+            // Vector literals stay a placeholder (pinned by
+            // test_serializable_term_vector_becomes_placeholder); record syntax is desugared
+            // before rules are stored
             _ => SerializableTerm::Placeholder,
         }
     }
@@ -175,7 +174,6 @@ impl SerializableTerm {
                 }
                 None => Term::Placeholder,
             },
-            SerializableTerm::VectorLiteral(values) => Term::VectorLiteral(values.clone()),
         }
     }
 }
